@@ -15,7 +15,9 @@ EXTENDS ProgMC
 T1 == TU(1)
 T2 == TU(2)
 T8 == TU(8)
-ParamTys == <<T8, TTup(<<T1, T2>>), TOpt(T2), TArr(T2, 2), TList(T1, 4), TEither(T1, T2), TBool, TU(16)>>
+\* positions 9..: zero-width types that are NOT the unit type itself (their argument is still written into the program)
+ParamTys == <<T8, TTup(<<T1, T2>>), TOpt(T2), TArr(T2, 2), TList(T1, 4), TEither(T1, T2), TBool, TU(16),
+              TTup(<<TUnit, TUnit>>), TArr(TUnit, 2), TUnit, TTup(<<TArr(T8, 0), TUnit>>), TOpt(TUnit)>>
 PNamesSeq == <<"P", "Q", "R", "S">>
 
 \* literal substitution of arguments (name -> [ty, v]) for param:: expressions
@@ -84,6 +86,7 @@ ArgMapsFor(ps, j) ==
      \o [i \in 1..n |-> retype(i, other(ps[i].t)) \o <<Entry("ZZ", T8, ArgVal(T8, 1))>>]
 
 PFamilies == {[k |-> k, rot |-> r] : k \in 0..4, r \in 0..(IF Thorough THEN 7 ELSE 3)}
+             \cup {[k |-> 4, rot |-> 7], [k |-> 4, rot |-> 8], [k |-> 2, rot |-> 10], [k |-> 2, rot |-> 11]}
 PProgramsOf(f) ==
   LET ps == [i \in 1..f.k |-> [n |-> PNamesSeq[i], t |-> ParamTys[((i + f.rot) % Len(ParamTys)) + 1]]]
       items == Prog(ps)
